@@ -126,7 +126,15 @@ def h15e(c):
     h03b_betdaq(_Only(c, ("betdaq.", "no-exception")))
 
 
+def h15f(c):
+    """an order refused by one client's control and then placed through another client (C02 world): it is listed under the client that placed it"""
+    from .c02 import h02a
+    from .c06 import _Only
+    h02a(_Only(c, ("retry-with-other-client", "no-exception")), mode="sim")
+
+
 HARNESSES = [
+    Harness("H15f", h15f, pattern="P2 inductive step", requires=["retried-with-other-client"], outside=OUT, selfcheck=False),
     Harness("H15e", h15e, pattern="P5 fault schedule as a variable", requires=["handled", "poll-in-flight"], outside=OUT, selfcheck=False),
     Harness("H15d", h15d, quick=dict(K=3), thorough=dict(K=4), pattern="P3/P5 schedule as a variable", requires=["run", "snapshot", "replaced-bet"], outside=OUT,
             max_paths=(400000, 5000000), wall_s=(300, 3000), selfcheck=False),
